@@ -26,7 +26,7 @@ package runner
 //@ spec logged(conf config.Config) int = cond(conf.Log != "", 1, 0)
 //@
 //@ func Run(conf) (err)
-//@   effects fs-write, fs-read, parsefile, log, stdout, stderr, random
+//@   effects fs-write, fs-read, parsefile, log, stdout, stderr, random, warn
 //@   assigns anything
 //@   split exits
 //@   assume-before CreateFunctions: forall(j, 0, len($arg1), bld.entryOK($arg1[j]))
